@@ -97,7 +97,7 @@ func rulePublishedMaps(c *Ctx, p *Prog, rule string) {
 			}
 			var recv ssa.Value
 			if fn.Signature.Recv() != nil && len(fn.Params) > 0 {
-				recv = fn.Params[0]
+				recv = ParamAt(fn, 0)
 			}
 			for _, field := range []string{"Header", "Trailer"} {
 				n++
@@ -114,13 +114,13 @@ func rulePublishedMaps(c *Ctx, p *Prog, rule string) {
 					}
 					// one interprocedural step: an accessor of the sender (w.Header()) that returns one of its fields
 					if call, ok := r.(*ssa.Call); ok && recv != nil {
-						if g := StaticFunc(call.Common()); g != nil && len(g.Blocks) > 0 && len(call.Call.Args) > 0 && rootIs(call.Call.Args[0], recv) {
+						if g := StaticFunc(call.Common()); g != nil && len(g.Blocks) > 0 && len(PArgs(&call.Call)) > 0 && rootIs(PArgs(&call.Call)[0], recv) {
 							for _, ret := range Returns(g) {
 								if len(ret.Results) == 0 {
 									continue
 								}
 								for _, rr := range Roots(ReturnValue(ret, 0)) {
-									if b2, f2, ok := FieldLoad(rr); ok && len(g.Params) > 0 && rootIs(b2, g.Params[0]) {
+									if b2, f2, ok := FieldLoad(rr); ok && len(g.Params) > 0 && rootIs(b2, ParamAt(g, 0)) {
 										bad = "it is the sender's field " + f2 + " returned by its accessor " + g.Name() + "()"
 									}
 								}
@@ -249,7 +249,7 @@ func onceBody(fn *ssa.Function) bool {
 	found := false
 	EachInstr(par, func(i ssa.Instruction) {
 		if IsCall(i, "(*sync.Once).Do") {
-			if mc, ok := CallOf(i).Args[1].(*ssa.MakeClosure); ok && mc.Fn == fn {
+			if mc, ok := PArgs(CallOf(i))[1].(*ssa.MakeClosure); ok && mc.Fn == fn {
 				found = true
 			}
 		}
@@ -406,7 +406,7 @@ func ruleShimNilMessages(c *Ctx, p *Prog, rule string) {
 					deref = x.Op == token.MUL && x.X == op.Val
 				case *ssa.Call:
 					// method call with the value as receiver of a pointer method that derefs: treat as deref
-					if len(x.Call.Args) > 0 && x.Call.Args[0] == op.Val && x.Call.Signature().Recv() != nil {
+					if len(PArgs(&x.Call)) > 0 && PArgs(&x.Call)[0] == op.Val && x.Call.Signature().Recv() != nil {
 						deref = true
 					}
 				}
@@ -549,7 +549,7 @@ func ruleInterimThenFinal(c *Ctx, p *Prog, rule string) {
 		if fn == nil || len(fn.Blocks) == 0 || len(fn.Params) < 2 {
 			continue
 		}
-		recv, status := fn.Params[0], fn.Params[1]
+		recv, status := ParamAt(fn, 0), ParamAt(fn, 1)
 		zero := func(ty types.Type) (constant.Value, bool) {
 			if b, ok := ty.Underlying().(*types.Basic); ok {
 				switch {
@@ -689,7 +689,7 @@ func ruleSharedScratch(c *Ctx, p *Prog, rule string, pkgs ...string) {
 			case ssa.CallInstruction:
 				cc := x.Common()
 				if b, ok := cc.Value.(*ssa.Builtin); ok {
-					if (b.Name() == "copy" || b.Name() == "append") && len(cc.Args) > 0 && cc.Args[0] == v {
+					if (b.Name() == "copy" || b.Name() == "append") && len(PArgs(cc)) > 0 && PArgs(cc)[0] == v {
 						return x
 					}
 					continue
@@ -845,12 +845,12 @@ func ruleAppResponseCacheKey(c *Ctx, p *Prog, rule string) {
 	}
 	expand(kr, 0)
 	for _, sp := range sprintfs {
-		format, isC := ConstString(sp.Call.Args[0])
+		format, isC := ConstString(PArgs(&sp.Call)[0])
 		nq := strings.Count(format, "%q")
 		nverbs := strings.Count(format, "%") - 2*strings.Count(format, "%%")
 		nargs := -1
-		if len(sp.Call.Args) > 1 {
-			for _, r := range Roots(sp.Call.Args[1]) {
+		if len(PArgs(&sp.Call)) > 1 {
+			for _, r := range Roots(PArgs(&sp.Call)[1]) {
 				if sl, isS := r.(*ssa.Slice); isS {
 					if arr, isA := sl.X.(*ssa.Alloc); isA {
 						if at, isArr := derefT(arr.Type()).Underlying().(*types.Array); isArr {
@@ -872,7 +872,7 @@ func ruleAppResponseCacheKey(c *Ctx, p *Prog, rule string) {
 	sawUser, sawURL := false, false
 	SliceBack(kr, func(v ssa.Value) bool {
 		if call, ok := v.(*ssa.Call); ok && CalleeName(call.Common()) == "(*net/url.URL).String" {
-			if PathOf(call.Call.Args[0]) == P(ph, 4)+".URL" {
+			if PathOf(PArgs(&call.Call)[0]) == P(ph, 4)+".URL" {
 				sawURL = true
 			}
 		}
@@ -1095,8 +1095,8 @@ func ruleCounterOnlyIncrements(c *Ctx, p *Prog, rule string) {
 			switch n {
 			case "sync/atomic.AddUint64", "sync/atomic.AddInt64", "sync/atomic.AddUint32", "sync/atomic.AddInt32":
 				sites = append(sites, i)
-				ctr = cc.Args[0]
-				if d, ok := ConstInt(cc.Args[1]); !ok || d <= 0 {
+				ctr = PArgs(cc)[0]
+				if d, ok := ConstInt(PArgs(cc)[1]); !ok || d <= 0 {
 					bad = "the counter is modified by a non-positive or non-constant delta at " + p.Pos(i.Pos())
 				}
 			case "sync/atomic.StoreUint64", "sync/atomic.StoreInt64", "sync/atomic.SwapUint64", "sync/atomic.CompareAndSwapUint64", "sync/atomic.CompareAndSwapInt64", "(*sync/atomic.Uint64).Store", "(*sync/atomic.Uint64).CompareAndSwap", "(*sync/atomic.Uint64).Swap":
@@ -1123,7 +1123,7 @@ func ruleCounterOnlyIncrements(c *Ctx, p *Prog, rule string) {
 			}
 		}
 		if idAdd != nil {
-			want := PathOf(CallOf(idAdd).Args[0])
+			want := PathOf(PArgs(CallOf(idAdd))[0])
 			var mine []ssa.Instruction
 			bad = ""
 			for _, fn := range WithClosures(se.Create) {
@@ -1136,7 +1136,7 @@ func ruleCounterOnlyIncrements(c *Ctx, p *Prog, rule string) {
 					switch {
 					case strings.HasPrefix(n, "sync/atomic.Add"):
 						mine = append(mine, i)
-						if d, ok := ConstInt(cc.Args[1]); !ok || d <= 0 {
+						if d, ok := ConstInt(PArgs(cc)[1]); !ok || d <= 0 {
 							bad = "the counter is modified by a non-positive or non-constant delta at " + p.Pos(i.Pos())
 						}
 					case strings.HasPrefix(n, "sync/atomic.Store"), strings.HasPrefix(n, "sync/atomic.Swap"), strings.HasPrefix(n, "sync/atomic.CompareAndSwap"):
